@@ -13,6 +13,7 @@ import importlib
 import itertools
 import json
 import os
+import re
 import time
 import traceback
 from fractions import Fraction
@@ -166,7 +167,9 @@ class Outcome:
         pc = self.cx.pc if pc_len is None else self.cx.pc[:pc_len]
         return list(self.cx.facts) + list(pc)
 
-    def prove(self, name, goal, pc_len=None, extra_hyps=(), kind='ensures', budget_ms=None, hints=(), atomize=False):
+    def prove(self, name, goal, pc_len=None, extra_hyps=(), kind='ensures', budget_ms=None, hints=(), atomize=False, inst=(), inst_cap=400):
+        """inst: index terms at which every universally quantified integer hypothesis is instantiated up front (forall-elimination,
+        sound; makes the proof independent of the solver's E-matching order, i.e. stable under load and seeds)."""
         goal = T.truthy(goal) if not isinstance(goal, bool) else goal
         if T.is_z3(goal) and pc_len is None and self.cx.known:
             # resolve flags already decided on this path (propositional constants in the path condition) inside the goal
@@ -178,9 +181,34 @@ class Outcome:
             t = N(t)
             if T.is_z3(t):
                 hs.append(t == t)
+        if inst:
+            hs = hs + ground_instances(hs, inst, cap=inst_cap)
         if atomize and T.is_z3(goal):
             hs, goal = atomize_transcendentals(hs, goal)
         self.V.record(self, name, hs, goal, kind, budget_ms, generalised=bool(atomize))
+
+    def prove_qf(self, name, goal, singles=(), pairs=(), kind='ensures', budget_ms=None):
+        """Quantifier-free proof from hand-picked instances: the ground hypotheses of the path plus the instances of every
+        one-variable integer-indexed quantified hypothesis at `singles` and of every two-variable one at `pairs`.  A proof from fewer
+        hypotheses is a proof; a counter-model of the reduced query is only a candidate (generalised).  No E-matching is involved, so
+        the solver time does not depend on instantiation order, seed or load."""
+        goal = T.truthy(goal) if not isinstance(goal, bool) else goal
+        hs = self.hyps()
+        ground = [h for h in hs if not (T.is_z3(h) and has_quant(h))]
+        tz = lambda t: z3.IntVal(N(t)) if isinstance(N(t), int) else T.to_int_term(N(t))
+        inst = []
+        for h in hs:
+            if not (T.is_z3(h) and z3.is_quantifier(h) and h.is_forall()):
+                continue
+            nv = h.num_vars()
+            if any(h.var_sort(i).kind() != z3.Z3_INT_SORT for i in range(nv)):
+                continue
+            if nv == 1:
+                inst += [z3.substitute_vars(h.body(), tz(t)) for t in singles]
+            elif nv == 2:
+                inst += [z3.substitute_vars(h.body(), tz(b), tz(a)) for a, b in pairs]
+        inst = [i for i in inst if not has_quant(i)]
+        self.V.record(self, name, ground + inst, goal, kind, budget_ms, generalised=True)
 
     def prove_from(self, name, hyps, goal, kind='lemma', budget_ms=None, atomize=False):
         """Prove goal from an explicit (smaller) hypothesis list only -- sound, and keeps hard lemmas quantifier free.
@@ -211,7 +239,12 @@ class Outcome:
                 nm, cond, pcl = entry
             if nm in skip:
                 continue
-            self.prove('side/' + nm, cond, pc_len=pcl, kind='safety')
+            inst = ()
+            if nm.startswith('loop') and ('-preserve/' in nm or '-establish/' in nm) and T.is_z3(cond):
+                # Hoare obligations: the goal is Skolemised (constants sk_*); instantiate the assumed (quantified) invariant and
+                # the other integer-indexed facts at those very constants up front instead of leaving it to E-matching
+                inst = skolem_constants(cond)
+            self.prove('side/' + nm, cond, pc_len=pcl, kind='safety', inst=inst)
 
     def assume(self, cond):
         cond = T.truthy(cond)
@@ -235,6 +268,106 @@ class Outcome:
             for ix in np.ndindex(*arr.a.shape):
                 goals.append(T.seq(arr.a[ix], orig(*ix)))
             self.prove('frame/%s-unchanged' % name, T.sand(*goals) if goals else True, kind='frame')
+
+
+_COMM_OPS = None
+
+
+def term_hash(t, memo):
+    """Merkle hash of a z3 term, canonical modulo the argument order of commutative operators (z3 orders those by ast id, which
+    depends on allocation history, so sexpr() is not reproducible between runs)."""
+    import hashlib
+    global _COMM_OPS
+    if _COMM_OPS is None:
+        _COMM_OPS = {z3.Z3_OP_AND, z3.Z3_OP_OR, z3.Z3_OP_ADD, z3.Z3_OP_MUL, z3.Z3_OP_EQ, z3.Z3_OP_DISTINCT, z3.Z3_OP_IFF}
+    stack = [(t, False)]
+    while stack:
+        e, done = stack.pop()
+        k = e.get_id()
+        if k in memo:
+            continue
+        if z3.is_quantifier(e):
+            kids = [e.body()]
+        elif z3.is_app(e):
+            kids = e.children()
+        else:
+            kids = []
+        if not done and kids:
+            stack.append((e, True))
+            for c in kids:
+                if c.get_id() not in memo:
+                    stack.append((c, False))
+            continue
+        if z3.is_quantifier(e):
+            head = 'Q%s%d:%s' % ('A' if e.is_forall() else 'E', e.num_vars(), ','.join(str(e.var_sort(i)) for i in range(e.num_vars())))
+            parts = [memo[e.body().get_id()][1]]
+        elif z3.is_var(e):
+            head, parts = 'v%d' % z3.get_var_index(e), []
+        elif z3.is_app(e):
+            if e.num_args() == 0:
+                head, parts = 'c:' + str(e) + ':' + str(e.sort()), []
+            else:
+                head = 'a:' + e.decl().name()
+                parts = [memo[c.get_id()][1] for c in kids]
+                if e.decl().kind() in _COMM_OPS:
+                    parts.sort()
+        else:
+            head, parts = 'x:' + e.sexpr(), []
+        memo[k] = (e, hashlib.sha1((head + '(' + ' '.join(parts) + ')').encode()).hexdigest())      # e kept alive: ids are reused after GC
+    return memo[t.get_id()][1]
+
+
+def vc_hash(hyps, goal, tag=''):
+    import hashlib
+    memo = {}
+    hs = sorted((term_hash(x, memo) if T.is_z3(x) else repr(x)) for x in hyps)
+    g = term_hash(goal, memo) if T.is_z3(goal) else repr(goal)
+    h = hashlib.sha1(('|'.join(hs) + '==>' + g).encode()).hexdigest()
+    d = os.environ.get('PYVC_DUMP_VC')
+    if d:
+        os.makedirs(d, exist_ok=True)
+        with open(os.path.join(d, '%s_%s.txt' % (re.sub(r'[^A-Za-z0-9_.=-]+', '_', tag)[-150:], h[:10])), 'w') as f:
+            f.write('\n'.join(sorted((x.sexpr() if T.is_z3(x) else repr(x)) for x in hyps)) + '\n==>\n' + (goal.sexpr() if T.is_z3(goal) else repr(goal)))
+    return h
+
+
+def skolem_constants(t, prefix='sk_'):
+    out, seen = [], set()
+    stack = [t]
+    while stack:
+        e = stack.pop()
+        if e.get_id() in seen:
+            continue
+        seen.add(e.get_id())
+        if z3.is_const(e) and e.decl().kind() == z3.Z3_OP_UNINTERPRETED and e.decl().name().startswith(prefix) and e.sort().kind() == z3.Z3_INT_SORT:
+            out.append(e)
+        elif z3.is_app(e):
+            stack.extend(e.children())
+        elif z3.is_quantifier(e):
+            stack.append(e.body())
+    return sorted(out, key=lambda c: c.decl().name())
+
+
+def ground_instances(hyps, terms, max_vars=2, cap=400):
+    """forall-elimination of the integer-indexed quantified hypotheses at the given index terms (all tuples for <= max_vars bound
+    variables); every instance is a logical consequence of its hypothesis"""
+    ts = []
+    for t in terms:
+        t = N(t)
+        ts.append(z3.IntVal(t) if isinstance(t, int) else T.to_int_term(t))
+    out = []
+    for h in hyps:
+        if not (T.is_z3(h) and z3.is_quantifier(h) and h.is_forall()):
+            continue
+        nv = h.num_vars()
+        if nv > max_vars or any(h.var_sort(i).kind() != z3.Z3_INT_SORT for i in range(nv)):
+            continue
+        for combo in itertools.product(ts, repeat=nv):
+            # de Bruijn: variable 0 is the LAST bound variable
+            out.append(z3.substitute_vars(h.body(), *reversed(combo)))
+            if len(out) >= cap:
+                return out
+    return out
 
 
 def atomize_all(hyps, goal):
@@ -497,8 +630,23 @@ class Verifier:
                        reason='not attempted: %d obligations of this task already failed and used %.0f s' % (sum(self.fail_counts.values()), self.fail_time))
         else:
             res = P.discharge(hyps, goal, timeout_ms=budget_ms or self.budget_ms, use_cvc5=self.use_cvc5, seed=self.seed)
+            vh = None
+            if res['verdict'] != 'proved' or getattr(self, 'hash_all', False):
+                vh = vc_hash(hyps, goal, full) if res['backend'] not in ('trivial',) else None
+            if res['verdict'] == 'unknown' and vh and vh in getattr(self, 'baseline_vcs', ()):
+                # the identical formula was discharged on the unchanged tree: one retry with a larger budget and another seed
+                res2 = P.discharge(hyps, goal, timeout_ms=3 * (budget_ms or self.budget_ms), use_cvc5=True, seed=self.seed + 17)
+                if res2['verdict'] == 'proved':
+                    res = res2
+                else:
+                    res = dict(res, same_vc=True)
+            res = dict(res, vc_hash=vh)
         rec = dict(name=full, clause=name, kind=kind, mode=self.mode, verdict=res['verdict'], backend=res['backend'],
                    time_s=round(res['time_s'], 4), n_hyps=len(hyps), reason=res['reason'], path=out.path, function=out.fn)
+        if res.get('vc_hash'):
+            rec['vc_hash'] = res['vc_hash']
+        if res.get('same_vc'):
+            rec['same_vc_as_baseline'] = True
         if res['verdict'] != 'proved':
             self.fail_counts[name] = fails + 1
         if res.get('candidate') or (generalised and res['verdict'] == 'refuted'):
